@@ -94,6 +94,7 @@ type c16Case struct {
 	done    map[uint64]chan struct{}
 	thrPan  atomic.Value
 	ready   bool
+	stuck   bool // Status does not answer any more
 	mu      sync.Mutex
 }
 
@@ -153,9 +154,33 @@ func (c *c16Case) isDone(tid uint64) bool {
 }
 
 // threadTable reads the debugger's thread table through Status().
+// (time-bounded: a command that left the debugger's lock held blocks Status forever;
+// nil = no answer)
 func (c *c16Case) threadTable() map[string]map[string]interface{} {
-	st := c.dbg.Status().(map[string]interface{})
-	return st["threads"].(map[string]map[string]interface{})
+	if c.stuck {
+		return nil
+	}
+	ch := make(chan map[string]map[string]interface{}, 1)
+	go func() {
+		defer func() {
+			if e := recover(); e != nil {
+				ch <- nil
+			}
+		}()
+		st := c.dbg.Status().(map[string]interface{})
+		ch <- st["threads"].(map[string]map[string]interface{})
+	}()
+	select {
+	case t := <-ch:
+		if t == nil {
+			c.stuck = true
+		}
+		return t
+	case <-time.After(c16CmdTimeout()):
+		atomic.AddInt32(&c16Hangs, 1)
+		c.stuck = true
+		return nil
+	}
 }
 
 // quiesce waits until every started thread is suspended, in the gate or finished.
@@ -164,6 +189,9 @@ func (c *c16Case) quiesce() bool {
 	stable := 0
 	for {
 		tt := c.threadTable()
+		if tt == nil {
+			return false
+		}
 		all := true
 		// VisitStepOutState marks a thread whose error is already recorded as not running
 		// WITHOUT waiting: such a thread only counts as suspended if it stays that way
@@ -402,7 +430,9 @@ func (c *c16Case) command(line string) string {
 var c16Hangs int32
 
 func c16CmdTimeout() time.Duration {
-	if atomic.LoadInt32(&c16Hangs) > 0 {
+	if n := atomic.LoadInt32(&c16Hangs); n >= 4 {
+		return 300 * time.Millisecond
+	} else if n > 0 {
 		return 1500 * time.Millisecond
 	}
 	return 25 * time.Second
@@ -452,6 +482,9 @@ func c16Exec(scn string, gsGiven bool, lines []string, rec []c16Step, obs0 strin
 			}
 		}
 		if !c.quiesce() {
+			if c.stuck {
+				return o0, out, strings.Join(classes, ",") + " HANG"
+			}
 			return o0, out, strings.Join(classes, ",") + " NOQUIESCE"
 		}
 		st.obs = c.observe()
